@@ -77,6 +77,67 @@ def cli_leg(res, tier, prop):
         shutil.rmtree(work, ignore_errors=True)
 
 
+def preamble_leg(res, tier, prop):
+    """Files that do not start with their first timestamped line: a preamble of N filler bytes (NUL, space, 0xFF, newline,
+    'x') then a newline, then messages. C02: stdout is the file from the first timestamped line on, at every block size;
+    C12: stdout at every block size equals stdout at the default block size."""
+    import gen
+    work = common.scratch_dir(prop + "pre")
+    try:
+        E = gen.EPOCH_2000 * 1000
+        body = gen.text_log([(E + i * 1000, b"msg %d" % i, [b"cont"] if i == 1 else []) for i in range(4)])
+        ns = [1, 63, 64, 65, 127, 128, 129, 200, 1000] if tier == "quick" else [1, 2, 31, 63, 64, 65, 100, 126, 127, 128, 129, 130, 191, 192, 200, 255, 256, 257, 1000, 5000, 70000]
+        fillers = [(b"\x00", "nul"), (b" ", "space"), (b"\xff", "ff"), (b"\n", "newline"), (b"x", "x")]
+        bszs = [64, 65, 100, 127, 128, 129, 200, 256, 1024, 65536] if tier == "quick" else [64, 65, 66, 90, 100, 126, 127, 128, 129, 130, 192, 200, 255, 256, 257, 512, 1000, 1024, 4096, 8096, 65536, 0x20000]
+        ents = []
+        for n in ns:
+            for fb, fname in fillers:
+                for nl in (True, False):
+                    if not nl and fname != "nul":
+                        continue      # filler running straight into the first stamp: only NUL is skipped by the line scanner
+                    name = "pre_%s_%d_%d.log" % (fname, n, nl)
+                    data = fb * n + (b"\n" if nl else b"") + body
+                    common.write_file(os.path.join(work, name), data)
+                    ents.append({"name": name, "filler": fname, "n": n, "newline_after": nl, "data": data, "exp": body})
+
+        def one(it):
+            ent, b = it
+            return ent, b, common.run_s4(["--color", "never", "-t", "+00:00", "--blocksz", str(b), ent["name"]], cwd=work)
+        outs = {}
+        for ent, b, r in common.pmap(one, [(e, b) for e in ents for b in bszs]):
+            res.count()
+            res.distinct(("preamble", ent["name"], b))
+            outs[(ent["name"], b)] = r
+        nv = 0
+        for ent in ents:
+            ref = outs[(ent["name"], 65536)]
+            for b in bszs:
+                r = outs[(ent["name"], b)]
+                first_end = ent["n"] + (1 if ent["newline_after"] else 0) + body.index(b"\n") + 1
+                feats = cli_features({"len": len(ent["data"]), "first_head_line_end": first_end}, b, None)
+                del feats["symptom"]
+                feats.update({"input": "preamble", "filler": ent["filler"], "filler_len_ge_128": ent["n"] >= 128,
+                              "filler_len_64_to_127": 64 <= ent["n"] < 128, "blocksz_lt_128": b < 128, "newline_after_filler": ent["newline_after"]})
+                rep = {"engine": "E-CLI", "args": ["--color", "never", "-t", "+00:00", "--blocksz", str(b), ent["name"]], "files": {ent["name"]: common.b64(ent["data"])}}
+                if r.timed_out or r.rc not in (0, 1):
+                    res.violation(dict(feats, symptom="crash"), "%s at --blocksz %d: rc=%s" % (ent["name"], b, r.rc), dict(rep, expected_stdout=common.b64(ent["exp"])))
+                    continue
+                if prop == "C12":
+                    if b != 65536 and r.out != ref.out:
+                        sym = "rejected" if not r.out else ("accepted-only-here" if not ref.out else "bytes-differ")
+                        res.violation(dict(feats, symptom=sym), "%d x %s then messages: stdout at --blocksz %d (%d bytes) differs from stdout at the default block size (%d bytes)" % (
+                            ent["n"], ent["filler"], b, len(r.out), len(ref.out)), dict(rep, expected_stdout=common.b64(ref.out)))
+                else:
+                    exp = ent["exp"] if ent["newline_after"] else None
+                    if exp is not None and r.out != exp:
+                        sym = "rejected" if not r.out else "bytes-differ"
+                        res.violation(dict(feats, symptom=sym), "%d x %s + newline then messages: stdout at --blocksz %d (%d bytes) is not the file from its first timestamped line (%d bytes)" % (
+                            ent["n"], ent["filler"], b, len(r.out), len(exp)), dict(rep, expected_stdout=common.b64(exp)))
+        res.coverage["preamble_leg_runs"] = len(outs)
+    finally:
+        shutil.rmtree(work, ignore_errors=True)
+
+
 _ESC = re.compile(rb"\x1b\[[0-9;]*m")
 
 
@@ -146,6 +207,7 @@ def run(tier, seed, build=True, prop=PROP, sub=SUB):
     s = seqxdrv.run_sub(res, sub, tier)
     seqxdrv.merge_summary(res, s)
     cli_leg(res, tier, prop)
+    preamble_leg(res, tier, prop)
     cov = res.coverage
     cov.setdefault("states", s.get("states") or s["distinct_nontrivial"])
     cov.setdefault("transitions", s.get("transitions") or s["evaluations"])
